@@ -81,10 +81,12 @@ def gen_block(rng, depth, in_loop, names, budget):
             out.append(("for", tgt, gen_block(rng, depth + 1, True, names, budget)))
         elif r < 0.90 and in_loop:
             out.append((rng.choice(["break", "continue"]),))
-            break
+            if rng.random() < 0.5:
+                break  # otherwise keep generating: dead code after the jump
         elif r < 0.93:
             out.append(("return",))
-            break
+            if rng.random() < 0.4:
+                break  # otherwise keep generating: dead code after the return
         elif r < 0.97 and depth < 2 and names["nested"] < 2:
             names["nested"] += 1
             cap = rng.sample(names["readable"][:6], rng.randint(0, 2))
@@ -111,6 +113,9 @@ def gen_program(rng):
         "nested": 0,
     }
     body = gen_block(rng, 0, False, names, [rng.randint(4, 14)])
+    if rng.random() < 0.12:
+        # whole body is dead code behind an initial return: the entry block's dummy successor
+        body = [("return",)] + body
     if rng.random() < 0.6:
         # prologue defining most locals, so that re-typing (not undefinedness) decides
         pro = [("asg", x, rng.choice(list(TYPES))) for x in VARS if rng.random() < 0.85]
